@@ -67,3 +67,41 @@ def run (locking : Bool) (s : PState) : List Act → PState
   | a :: as => run locking (step locking s a) as
 
 end CV.Res.Proto
+
+/-! ### lock order of `WatchList` versus `Restoration.Commit`
+
+`EventPublisher.Subscribe` takes the publisher lock `P` and, holding it, runs the snapshot handler, which
+takes the store's `mu` (read) in `Store.txn`.  `Restoration.Commit` takes `mu` (write) and, holding it,
+calls `RefreshTopic`, which takes `P`.  Two program counters suffice:
+
+  WatchList          0 ─take P→ 1 ─take mu.R→ 2 ─release both→ 3
+  Restoration.Commit 0 ─take mu.W→ 1 ─take P→ 2 ─release both→ 3
+-/
+namespace CV.Res.LockOrder
+
+structure LState where
+  w : Nat
+  r : Nat
+deriving DecidableEq, Repr
+
+inductive LAct where
+  | watch | restore
+deriving DecidableEq, Repr
+
+def step (s : LState) : LAct → LState
+  | .watch =>
+    if s.w = 0 then (if s.r = 2 then s else { s with w := 1 })                  -- P is free unless Commit holds it
+    else if s.w = 1 then (if s.r = 1 ∨ s.r = 2 then s else { s with w := 2 })   -- mu.R needs mu not write-held
+    else if s.w = 2 then { s with w := 3 }
+    else s
+  | .restore =>
+    if s.r = 0 then (if s.w = 2 then s else { s with r := 1 })                  -- mu.W needs no reader
+    else if s.r = 1 then (if s.w = 1 ∨ s.w = 2 then s else { s with r := 2 })   -- P is held by WatchList
+    else if s.r = 2 then { s with r := 3 }
+    else s
+
+def run (s : LState) : List LAct → LState
+  | [] => s
+  | a :: as => run (step s a) as
+
+end CV.Res.LockOrder
